@@ -587,6 +587,61 @@ def order(F, res):
         res.add([ok("ORDER", key, where(f), "map/filter/collect over tx.outputs, then the publish directives appended: no reordering")])
 
 
+ADVANCE = ("next", "next_if", "next_if_eq", "peek", "nth", "next_back", "peek_mut")
+
+
+def byname(F, res):
+    """Record/variant constructor fields are associated with the declaration *by name*: the order in which the explicit fields
+    are written must be immaterial.  Positional pairing shows up as a cursor over the explicit fields
+    (RecordConstructorField items) that is created outside a loop driven by another iterator and advanced inside it, or as a
+    zip of the two lists."""
+    f = F.fn("<tx3_lang::ast::StructConstructor as tx3_lang::lowering::IntoLower>::into_lower")
+    key = f["path"] + "|explicit fields are matched to the declaration by name"
+    bad = []
+    n_adv = 0
+    for g in with_closures(F, f):
+        cfg = mir.CFG(g)
+        du = mir.DefUse(g)
+        loops = cfg.loops()
+        per_loop = {}
+        for bi, t in mir.calls(g):
+            c = t.get("callee") or ""
+            name = c.split("::")[-1]
+            ty = " ".join(t.get("gargs") or []) + " " + (t.get("callee_args") or "")
+            if name == "zip" and "Iterator" in c and "RecordConstructorField" in ty:
+                bad.append((t["line"], "explicit fields are zipped with another list"))
+            if name in ADVANCE and ("Iterator" in c or "Peekable" in c):
+                n_adv += 1
+                org = mir.provenance(g, du, t["args"][0], transparent_extra=("std::ops::DerefMut::deref_mut",))
+                for hdr, body in loops.items():
+                    if bi in body and org and all(o.kind == "call" and o.bb not in body for o in org):
+                        per_loop.setdefault(hdr, []).append((t["line"], "RecordConstructorField" in ty, name))
+        for hdr, its in per_loop.items():
+            expl = [x for x in its if x[1]]
+            other = [x for x in its if not x[1]]
+            if expl and other:
+                bad.append((expl[0][0], "a cursor over the explicit fields (`%s`) is advanced in step with the loop over the declared fields" % expl[0][2]))
+    lookups = [t for g in with_closures(F, f) for bi, t in mir.calls(g) if (t.get("callee") or "").endswith("VariantCaseConstructor::find_field_value")]
+    if bad:
+        res.add([finding("BYNAME", key, where(f, bad[0][0]), "%s: a constructor whose fields are written in another order than the declaration gets other values than the ones written" % bad[0][1])])
+    else:
+        res.add([ok("BYNAME", key, where(f), "no positional pairing of explicit and declared fields (%d iterator advances inspected, %d by-name lookups)" % (n_adv, len(lookups)))])
+    # the by-name lookup itself compares names over the whole list
+    ff = F.fn("tx3_lang::ast::VariantCaseConstructor::find_field_value")
+    key2 = ff["path"] + "|searches every explicit field by name"
+    finds = [t for g in with_closures(F, ff) for bi, t in mir.calls(g) if (t.get("callee") or "").split("::")[-1] in ("find", "find_map", "position")]
+    cut = [t for g in with_closures(F, ff) for bi, t in mir.calls(g) if (t.get("callee") or "").split("::")[-1] in ("take", "skip", "step_by", "first", "last", "nth", "rev")]
+    cmpn = False
+    for g in with_closures(F, ff):
+        for bi, t in mir.calls(g):
+            if (t.get("callee") or "") in ("std::cmp::PartialEq::eq", "std::cmp::PartialEq::ne"):
+                cmpn = True
+    if finds and cmpn and not cut:
+        res.add([ok("BYNAME", key2, where(ff), "iter().find(|x| x.name.value == name)")])
+    else:
+        res.add([finding("BYNAME", key2, where(ff), "find_field_value does not search the whole list of explicit fields by name equality")])
+
+
 def run(ctx_):
     F = ctx_.F
     res = Result("C01")
@@ -594,7 +649,7 @@ def run(ctx_):
                       ("T1", "every expression-bearing AST field is lowered"), ("ROOT", "each ir::Tx field is fed from the same-named AST field"),
                       ("ATTRIB", "rebuilt fields come from the field they denote"), ("CTX", "same-named block fields use the same lowering context"),
                       ("FIELDUSE", "every IR field is consulted by the compiler"), ("NOFILTER", "no item-dropping adaptors other than the tabled ones"),
-                      ("ORDER", "outputs keep source order")):
+                      ("ORDER", "outputs keep source order"), ("BYNAME", "constructor fields are matched to the declaration by name, not by position")):
         res.rule(rid, text)
     G, it = assoc(F, res)
     blocks(F, res, G, it)
@@ -606,4 +661,5 @@ def run(ctx_):
     fielduse(F, res)
     nofilter(F, res)
     order(F, res)
+    byname(F, res)
     return res
